@@ -195,6 +195,14 @@ func (w *world) step() {
 			}
 			w.addCommitted(p.root, p.snap)
 			w.checkRoot(p.root, "just-committed")
+			if p.emptyOnTop && r.Chance(2, 3) {
+				// the node commits once per block: the empty block on top has the same state hash, so Commit(root) comes a
+				// second time; the entry is gone, the reply is ErrHashNotFound (compared with the model, no predicate: the
+				// property constrains what is readable, not this reply) and the content must stay readable
+				e.Commit(p.root)
+				out.Stat("second_commit_of_same_root", 1)
+				w.checkRoot(p.root, "after-second-commit")
+			}
 		} else {
 			out.Pred("C04|Store.Commit|"+st+"-for-pending-root", fmt.Sprintf("root=%x", p.root))
 		}
